@@ -236,6 +236,9 @@ def run_check(pid, tier, seed=0, procs=None):
     mod = importlib.import_module(modname)
     units = mod.units(tier)
     units = sorted(units, key=lambda d: -d.get('cost', 0))     # longest first (tail latency)
+    if os.environ.get('VERIF_ONLY_UNITS'):          # development only: run the units whose name matches (evidence of such a run is partial)
+        import re as _re
+        units = [d for d in units if _re.search(os.environ['VERIF_ONLY_UNITS'], d['name'])]
     procs = procs or min(16, max(1, len(units)))
     results = []
     unit_timeout = float(os.environ.get('VERIF_UNIT_TIMEOUT', getattr(mod, 'UNIT_TIMEOUT', {}).get(tier, 420 if tier == 'quick' else 1200)))
